@@ -906,10 +906,10 @@ func c19(r *ev.Run) {
 		// wire level: refused requests carrying bodies of every size class, then probes on the SAME connection
 		// (sequentially and pipelined), written and read byte for byte
 		var wn int64
-		wf := wireFaults()
+		wf := append(protoFaults(), wireFaults()...)
 		for i, f := range wf {
 			for _, pl := range []bool{false, true} {
-				if slow >= 3 {
+				if slow >= 3 || f.Proto != "" && pl {
 					break
 				}
 				wc := wireCase{f, i, pl}
